@@ -35,6 +35,32 @@ func (w *World) installCrashMonitor() {
 		seen[rec.Cid.KeyString()] = rec.Bytes
 		w.checkBlockClosure(rec)
 	}
+	w.St.OnRemove = func(c cid.Cid, had bool) {
+		// the store must stay closed at every instant: nothing in it may name the removed block, and no
+		// pointer ever returned may lead to it
+		w.R.Fault("block-removed")
+		if !had {
+			return
+		}
+		if me, ok := w.M.Reg[c.String()]; ok {
+			w.R.Violate("C17:closure", "the block of entry %s, which replicas hold and returned pointers lead to, was removed from the store", w.M.Name(me.Hash))
+		}
+		w.St.mu.Lock()
+		writes := append([]WriteRec(nil), w.St.Writes...)
+		w.St.mu.Unlock()
+		for _, rec := range writes {
+			if !w.St.Has(rec.Cid) {
+				continue
+			}
+			if nd, err := decodeBlock(rec.Cid, rec.Bytes); err == nil {
+				for _, l := range nd.Links() {
+					if l.Cid.Equals(c) {
+						w.R.Violate("C17:closure", "block %s was removed from the store while block %s links to it", c, rec.Cid)
+					}
+				}
+			}
+		}
+	}
 }
 
 // checkBlockClosure: everything the freshly written block links to is already in the store.
@@ -79,9 +105,9 @@ func (w *World) reloadPointer(p ptrRec, k int, why string) {
 	d.Run(func() {
 		ctx := context.Background()
 		if p.kind == 0 {
-			l, err = ipfslog.NewFromMultihash(ctx, view, Writers()[4].ID, p.c, w.logOpts(), &ipfslog.FetchOptions{Concurrency: conc})
+			l, err = ipfslog.NewFromMultihash(ctx, view, Writers()[4].ID, p.c, w.loadOpts(), &ipfslog.FetchOptions{Concurrency: conc})
 		} else {
-			l, err = ipfslog.NewFromEntryHash(ctx, view, Writers()[4].ID, p.c, w.logOpts(), &ipfslog.FetchOptions{Concurrency: conc})
+			l, err = ipfslog.NewFromEntryHash(ctx, view, Writers()[4].ID, p.c, w.loadOpts(), &ipfslog.FetchOptions{Concurrency: conc})
 		}
 	})
 	w.R.Add("fetch-steps", int64(d.Steps))
